@@ -167,6 +167,11 @@ class EzspRig:
     # ---- inputs
     async def call(self, c, cmd, modes=()):
         self.gw.modes = list(modes)
+        helper = None
+        if cmd.endswith(":helper"):
+            # the version handler's composite method reached through the EZSP object (read_counters ...): it issues the command `cmd`
+            cmd = cmd.split(":")[0]
+            helper = {"readCounters": "read_counters", "readAndClearCounters": "read_and_clear_counters"}[cmd]
 
         async def run():
             t = self.t
@@ -196,6 +201,9 @@ class EzspRig:
                     # the raw command (EZSP.version is the negotiation built on it), issued the way the negotiation issues it
                     r = await self.ezsp._command("version", desiredProtocolVersion=self.version)
                     val = 0
+                elif helper is not None:
+                    r = await getattr(self.ezsp, helper)()
+                    val = int(list(r.values())[0])
                 elif cmd in ("getNodeId", "readCounters", "readAndClearCounters", "nop"):
                     r = await getattr(self.ezsp, cmd)()
                     val = self._val(cmd, list(r))
